@@ -46,7 +46,12 @@ Definition get_nucs (ref que : list N) (r2m : list nat) (inter : list nat) : lis
                      if N.land r q <? 16 then [mk_nuc (dec r) (dec q) p] else []) inter.
 
 (* ---- getAAsPair: the codon loop over a region's positions ---- *)
-Record aast := { a_snps : list variant; a_codon : list N; a_cc : nat; a_aa : nat; a_out : list variant; a_panic : bool }.
+(* Every emitted variant is paired with the reference positions it MENTIONS (a nuc: record its own position, an
+   aa: record the positions of the SNPs in its (nuc:...) list).  The pairing is bookkeeping for the theorems of
+   VariantsProofs.v; what is printed is the first component. *)
+Notation traced := (variant * list nat)%type (only parsing).
+Definition trace_nuc (v : variant) : traced := (v, [Z.to_nat (v_pos v)]).
+Record aast := { a_snps : list variant; a_codon : list N; a_cc : nat; a_aa : nat; a_out : list traced; a_panic : bool }.
 Definition aa_init := {| a_snps := []; a_codon := []; a_cc := 0; a_aa := 0; a_out := []; a_panic := false |}.
 Definition aa_step (ref que : list N) (r2m : list nat) (g : region) (s : aast) (refPos : nat) : aast :=
   if a_panic s then s else
@@ -64,37 +69,43 @@ Definition aa_step (ref que : list N) (r2m : list nat) (g : region) (s : aast) (
         let refaa := [ra] in
         let out' :=
           if negb (list_eqb aa refaa) && negb (list_eqb aa [88]) then
-            a_out s ++ [{| v_kind := KAA; v_pos := (Z.of_nat refPos - 2 * (if g_rev g then -1 else 1))%Z;
-                           v_refal := refaa; v_queal := aa; v_residue := S (a_aa s); v_feature := g_name g; v_len := 0;
-                           v_snps := join [59] (map nuc_text snps') |}]
-          else a_out s ++ snps' in
+            a_out s ++ [({| v_kind := KAA; v_pos := (Z.of_nat refPos - 2 * (if g_rev g then -1 else 1))%Z;
+                            v_refal := refaa; v_queal := aa; v_residue := S (a_aa s); v_feature := g_name g; v_len := 0;
+                            v_snps := join [59] (map nuc_text snps') |}, map (fun v => Z.to_nat (v_pos v)) snps')]
+          else a_out s ++ map trace_nuc snps' in
         {| a_snps := []; a_codon := []; a_cc := 0; a_aa := S (a_aa s); a_out := out'; a_panic := false |}
     end
   else {| a_snps := snps'; a_codon := codon'; a_cc := S (a_cc s); a_aa := a_aa s; a_out := a_out s; a_panic := false |}.
-Definition get_aas (ref que : list N) (r2m : list nat) (g : region) : res (list variant) :=
+Definition get_aas_traced (ref que : list N) (r2m : list nat) (g : region) : res (list traced) :=
   let s := fold_left (aa_step ref que r2m g) (g_pos g) aa_init in
   if a_panic s then Panic else Ok (a_out s).
+Definition get_aas (ref que : list N) (r2m : list nat) (g : region) : res (list variant) :=
+  match get_aas_traced ref que r2m g with Ok l => Ok (map fst l) | Err e => Err e | Panic => Panic end.
 
 (* ---- GetVariantsPair: merge, stable sort by (Position, Changetype), drop del@0 and adjacent duplicates ---- *)
 Definition v_lt (a b : variant) : bool :=
   (v_pos a <? v_pos b)%Z || ((v_pos a =? v_pos b)%Z && (kind_rank (v_kind a) <? kind_rank (v_kind b))%Z).
-Fixpoint dedupe (prev : option variant) (l : list variant) : list variant :=
+Definition t_lt (a b : traced) : bool := v_lt (fst a) (fst b).
+Fixpoint dedupe (prev : option variant) (l : list traced) : list traced :=
   match l with
   | [] => []
   | v :: t =>
-      if (match v_kind v with KDel => true | _ => false end) && (v_pos v =? 0)%Z then dedupe prev t
-      else if match prev with Some p => variant_eqb v p | None => false end then dedupe prev t
-      else v :: dedupe (Some v) t
+      if (match v_kind (fst v) with KDel => true | _ => false end) && (v_pos (fst v) =? 0)%Z then dedupe prev t
+      else if match prev with Some p => variant_eqb (fst v) p | None => false end then dedupe prev t
+      else v :: dedupe (Some (fst v)) t
   end.
-Fixpoint all_aas (ref que : list N) (r2m : list nat) (gs : list region) : res (list variant) :=
+Fixpoint all_aas (ref que : list N) (r2m : list nat) (gs : list region) : res (list traced) :=
   match gs with
   | [] => Ok []
-  | g :: t => bind (get_aas ref que r2m g) (fun a => bind (all_aas ref que r2m t) (fun r => Ok (a ++ r)))
+  | g :: t => bind (get_aas_traced ref que r2m g) (fun a => bind (all_aas ref que r2m t) (fun r => Ok (a ++ r)))
   end.
-Definition variants_pair (ref que : list N) (gs : list region) (inter : list nat) : res (list variant) :=
+Definition variants_pair_traced (ref que : list N) (gs : list region) (inter : list nat) : res (list traced) :=
   let r2m := ref_to_msa ref in
   bind (all_aas ref que r2m gs) (fun aas =>
-    Ok (dedupe None (ssort variant v_lt (map mk_indel (get_indels (cols_of_rows ref que)) ++ get_nucs ref que r2m inter ++ aas)))).
+    Ok (dedupe None (ssort traced t_lt (map (fun i => (mk_indel i, [])) (get_indels (cols_of_rows ref que)) ++
+                                         map trace_nuc (get_nucs ref que r2m inter) ++ aas)))).
+Definition variants_pair (ref que : list N) (gs : list region) (inter : list nat) : res (list variant) :=
+  match variants_pair_traced ref que gs inter with Ok l => Ok (map fst l) | Err e => Err e | Panic => Panic end.
 
 (* codes: the 1-based reference positions not in any region *)
 Definition inter_of (gs : list region) (reflen : nat) : list nat :=
